@@ -10,6 +10,10 @@ CLAIMED = {
              note='Floats modelled as exact reals (IEEE rounding not modelled); stdlib real-number axioms; translator, extraction and the line-protocol driver are trusted glue validated by exact Fraction correspondence on every run.',
              design='§7 C11'),
 }
+CLAIMED['C12'] = dict(engine='E4', technique='Coq proof over R (closed-form Bezier error identity + interval bounds) of definitions regenerated from arc_to_cubic.py; differential run of the extracted model with CPython math as oracle; spec-side (SVG F.6) judge for the search',
+    text='Partial proof. Proved for all arcs about the regenerated code: output shape and segment count, per-segment angle <= pi/2+0.001, the closed-form radial error 16 s^2(1-s)^2(2s-1)^2 u^6/(1+u^2)^2 and hence every cubic point within 0.03% outside the corrected ellipse, continuity, exact final end point, radius correction incl. negative radii, degenerate cases. Not proved: that the centre parametrisation realises the flags and puts the first start on the arc start (covered by the differential run and the spec judge).',
+    note='Reals for floats; math.* denote Coq Reals functions (base/Num.v RMath); Coq-Interval used for two numeric bounds; translator + extraction + driver trusted glue; float rounding of the implementation observed (<=2e-6 relative in the sqrt-amplified regime), not bounded.',
+    design='§7 C12')
 PENDING = {}
 
 def main():
@@ -39,6 +43,7 @@ def main():
                   'enable': 'none needed: the harness observes picosvg only through its public API (PYTHONPATH=/repo/src) and calls pathops itself',
                   'baseline_off_cmd': BASE, 'source_commits': [], 'add_only': True},
         'engines': [
+            {'name': 'E4', 'path': 'coq/gen/G_arc.v (generated) coq/model/Arc.v coq/proofs/E4_*.v', 'serves_properties': ['C12', 'C09'], 'kind_free_text': 'arc to cubic numerics over R'},
             {'name': 'E1', 'path': 'coq/gen/G_geom.v coq/gen/G_transform.v (generated) coq/proofs/E1_*.v', 'serves_properties': ['C11', 'C06', 'C19', 'C02'], 'kind_free_text': 'affine algebra and rectangles, translated from source'},
         ],
         'checks': checks,
